@@ -143,21 +143,31 @@ def check_pairs(cfg, crate, rep, tables):
             src = kv
             from interp import Sel
             tuples = []
+            from interp import restrict, split_guards
             def collect(x):
                 x = core(x)
                 if isinstance(x, PhiV):
                     for c, y in x.alts:
                         collect(y)
                 elif isinstance(x, TupleV):
-                    tuples.append(x)
+                    # a pair whose halves are correlated case splits (bound from one table-driven search):
+                    # one pair per guard
+                    gs = split_guards(x.items[1]) if len(x.items) == 2 and isinstance(core(x.items[1]), PhiV) else []
+                    if gs:
+                        for g in gs:
+                            tuples.append(restrict(x, g))
+                    else:
+                        tuples.append(x)
                 elif isinstance(x, Sel):
                     collect(x.base)
             collect(kv)
             got = {}
+            order = []
             for t in tuples:
                 a = core(t.items[1])
                 nm = a.path.split("::")[-1] if isinstance(a, Def) else a.r()
                 got[nm] = (kind_of(t.items[0]), backend_consts(t.items[0]))
+                order.append(nm)
             want_set = {"PKCS_ED25519", "PKCS_ECDSA_P256_SHA256", "PKCS_ECDSA_P384_SHA384", "PKCS_RSA_SHA256"} | ({"PKCS_ECDSA_P521_SHA512"} if cfg == "K2" else set())
             rep.ob("C11.pairs", key + "|detects", set(got) == want_set, "auto-detection tries exactly the key types of this back end", expected=sorted(want_set), found=sorted(got))
             for alg, (kind, consts) in sorted(got.items()):
@@ -165,6 +175,13 @@ def check_pairs(cfg, crate, rep, tables):
                 want_consts = [] if fam == "EdDsa" else [be]
                 rep.ob("C11.pairs", key + "|" + alg, kind == KIND_OF_FAMILY.get(fam) and consts == want_consts, "detected key type is labelled with the algorithm whose parser accepted it", expected=(KIND_OF_FAMILY.get(fam), want_consts), found=(kind, consts))
             tables[(cfg, "cascade")] = got
+            if cfg == "K2":
+                # aws-lc's SEC1 parser takes the curve from the caller when the optional parameters are absent and accepts
+                # any scalar below the group order: a smaller curve's key parses under a larger curve.  Only the
+                # ascending order of the EC trials makes such keys resolve to their own curve.
+                ec = [a for a in order if a.startswith("PKCS_ECDSA_")]
+                want_ec = ["PKCS_ECDSA_P256_SHA256", "PKCS_ECDSA_P384_SHA384", "PKCS_ECDSA_P521_SHA512"]
+                rep.ob("C11.pairs", key + "|ec-trials-ascending", ec == want_ec, "under aws-lc-rs the EC curves are tried smallest first (a parameter-less SEC1 key of a smaller curve is accepted by a larger curve's parser)", expected=want_ec, found=ec)
             doc = sv.fields.get("serialized_der")
             rep.ob("C11.doc", key + "|stores-input", places(doc) == {"key"} and not [r for r in roots(doc) if r.startswith("op:")], "the loaded key keeps its input document", found=core(doc).r()[:120])
             av = core(sv.fields.get("alg"))
